@@ -4,7 +4,7 @@ CONSTANTS
   Mod = 16
   Signed = FALSE
   MaxOps = 6
-  Defects = {"ResetKeepsEntry"}
+  Defects = {"KeyWiderThanWire"}
 SPECIFICATION Spec
 INVARIANTS OwnResponseOnce TableIsWaiting NoAliasing IdRoundTrip
 CHECK_DEADLOCK FALSE
